@@ -13,6 +13,7 @@ OBLIGATIONS = [
     "Pkgcore.C08.unversioned_exact",
     "Pkgcore.C08.sorted_same_multiset",
     "Pkgcore.C08.multiplex_union",
+    "Pkgcore.C08.nested_multiplex_union",
     "Pkgcore.C08.filtered_exact",
     "Pkgcore.C06.dnf_complete_unguarded",
 ]
@@ -32,11 +33,13 @@ ASSUMPTIONS = [
     "PackageRestrictionMulti over the single attribute 'category' / 'package' is not used as a query",
 ]
 RULE = ("random in-memory repositories (SimpleTree over 1-4 categories x 0-4 packages x 0-3 versions from pools with shared prefixes, mixed case, "
-        "packages without versions; 1-3 repositories for multiplex, a random mask for filtered) against restrictions built from the real classes: "
+        "packages without versions, equal versions spelled differently: 1 / 1-r0 / 01, 1.0 / 1.00 / 1.0-r0; 1-3 repositories r0, r1, ... whose packages "
+        "report pkg.repo, stacked flat and nested — multiplex.tree of multiplex.trees, stack + stack —, a random mask for filtered) against restrictions built from the real classes: "
         "top level = boolean tree (all-of / any-of / exactly-one-of / at-most-one-of, negate, Negate wrappers, empty nodes, depth <= 3), single "
         "leaf, Negate, or atom; leaves = category / package PackageRestriction, CategoryDep, PackageDep with negation on the wrapper and/or the "
         "value, value = exact (case-sensitive or not), glob, regex, containment, value-level boolean tree; other leaves = fullver / VersionMatch / "
-        "slot / USE / AlwaysBool / Conditional; atoms.  Each query is run versioned and unversioned with sorter iter / sorted / reverse-sorted and "
+        "slot / USE / AlwaysBool / Conditional; atoms (all operators, ::repo pins, and atoms aimed at a stored package with its version "
+        "respelled).  Each query is run versioned and unversioned with sorter iter / sorted / reverse-sorted and "
         "compared with the brute-force filter.  Query histories: long-lived SimpleTree / multiplex.tree / filtered.tree objects answer the same batch "
         "of queries (incl. atoms for the packages touched) again and again while packages, revisions and whole categories are added "
         "(notify_add_package), removed (notify_remove_package) and repositories are stacked on (+); each answer is compared with a brute-force "
@@ -45,7 +48,9 @@ RULE = ("random in-memory repositories (SimpleTree over 1-4 categories x 0-4 pac
 
 CATS = ["app", "dev", "App", "a", "b", "app-x", "dev-x"]
 PKGS = ["foo", "bar", "baz", "Foo", "f", "x", "foobar"]
-VERS = ["1", "1-r1", "1-r2", "2", "1.0", "1.0-r1", "3", "0.9"]     # several revisions of one version
+# several revisions of one version, and versions that are equal but spelled differently (explicit -r0, zero padding: PMS compares them equal)
+VERS = ["1", "1-r1", "1-r2", "2", "1.0", "1.0-r1", "3", "0.9", "1-r0", "1.00", "1.0-r0", "01"]
+NREPO_IDS = 8      # repositories are called r0, r1, ... (the id packages report as pkg.repo.repo_id)
 
 
 def gen_repo(rng, small=False):
@@ -95,7 +100,55 @@ def gen_leaf(rng):
 
 
 ATOM_FORMS = ["{c}/{p}", ">={c}/{p}-2", "<{c}/{p}-2", "={c}/{p}-1*", "~{c}/{p}-1.0", "{c}/{p}:0", "{c}/{p}[x]", "!{c}/{p}", "={c}/{p}-1-r1",
-              ">={c}/{p}-1-r2", "={c}/{p}-1", "<{c}/{p}-1-r2", "~{c}/{p}-1", "={c}/{p}-1.0-r1"]
+              ">={c}/{p}-1-r2", "={c}/{p}-1", "<{c}/{p}-1-r2", "~{c}/{p}-1", "={c}/{p}-1.0-r1",
+              "={c}/{p}-1.0", "={c}/{p}-1-r0", "={c}/{p}-1.00", "={c}/{p}-01", "~{c}/{p}-1.00", "={c}/{p}-1.0-r0",
+              "{c}/{p}::r0", "{c}/{p}::r1", "{c}/{p}::r2", ">={c}/{p}-1::r0", "={c}/{p}-1::r1", "{c}/{p}:0::r1"]
+
+
+def respell(rng, v):
+    """the same version (PMS order) spelled differently, or itself: explicit / dropped -r0, zero padded revision, zero padded components"""
+    ver, _, rev = v.partition("-r")
+    k = rng.choice(["same", "rev", "rev", "pad", "lead"])
+    if k == "rev":
+        rev = {"": "0", "0": "", "00": ""}.get(rev, "0" + rev)
+    elif k == "pad" and "." in ver and ver.replace(".", "").isdigit():
+        head, _, last = ver.rpartition(".")
+        if last.startswith("0") or len(last) == 0:
+            ver = head + "." + last + "0"          # 1.0 == 1.00, 1.05 == 1.050
+        else:
+            return v
+    elif k == "lead" and ver[:1].isdigit():
+        ver = "0" + ver                            # the first component compares as an integer
+    return ver + ("-r" + rev if rev != "" else "")
+
+
+def aimed_atom_query(rng, repos):
+    """an atom for a package that is stored in one of the repositories, its version taken from a stored one and respelled"""
+    have = [(c, p, v, i) for i, d in enumerate(repos) for c, ps in d.items() for p, vs in ps.items() for v in vs]
+    if not have:
+        return atom_query(rng)
+    c, p, v, i = rng.choice(have)
+    op = rng.choice(["=", "=", "=", "~", ">=", "<=", "<", ">", "=*"])
+    v2 = respell(rng, v)
+    if op == "~":
+        v2 = v2.partition("-r")[0]
+    s = f"={c}/{p}-{v2}*" if op == "=*" else f"{op}{c}/{p}-{v2}"
+    if rng.random() < 0.35:
+        s += "::r%d" % rng.choice([i, i, rng.randrange(3)])
+    return {"tree": {"t": "leaf", "k": 0}, "leaves": [{"l": "atom", "s": s}]}
+
+
+def gen_stack(rng, idx, top=True):
+    """how the repositories idx are stacked: int = the repository, list = multiplex.tree(*members), {"add": [a, b]} = a + b (both stacks)"""
+    if len(idx) == 1:
+        return [idx[0]] if top or rng.random() < 0.4 else idx[0]
+    form = rng.choice(["flat", "nest", "nest", "add"])
+    if form == "flat":
+        return list(idx)
+    k = rng.randrange(1, len(idx))
+    if form == "nest":
+        return [gen_stack(rng, idx[:k], False), gen_stack(rng, idx[k:], False)]
+    return {"add": [gen_stack(rng, idx[:k], True), gen_stack(rng, idx[k:], True)]}
 
 
 def atom_query(rng, c=None, p=None):
@@ -140,7 +193,7 @@ def gen_history(rng):
         elif r < 0.86:
             d = gen_repo(rng, small=True)
             sim.append({c: {p: list(vs) for p, vs in ps.items()} for c, ps in d.items()})
-            ops.append({"op": "stack", "contents": d})
+            ops.append({"op": "stack", "contents": d, "as_stack": rng.random() < 0.5})     # as_stack: the newcomer is itself a stack
             touched += [(c, p) for c, ps in d.items() for p in ps][:2]
         else:
             ops.append({"op": "requery"})
@@ -148,6 +201,8 @@ def gen_history(rng):
     for c, p in touched[:3]:
         queries.append(atom_query(rng, c, p))
     queries.append(atom_query(rng))
+    queries.append(aimed_atom_query(rng, sim))
+    queries.append(aimed_atom_query(rng, repos))
     mask = None
     if rng.random() < 0.7:
         mask = atom_query(rng, *(rng.choice(touched) if touched and rng.random() < 0.5 else (None, None))) if rng.random() < 0.5 else gen_query(rng)
@@ -342,9 +397,26 @@ def run(ctx):
                     return {"t": k, "n": bool(o.negate), "cs": [self.tree(c) for c in o.restrictions]}
             return {"t": "leaf", "id": self.leaf(o)}
 
-    def mktree(d):
-        return SimpleTree({c: {p: list(vs) for p, vs in ps.items()} for c, ps in d.items()},
-                          pkg_klass=lambda c, p, v: FakePkg.for_tree_usage(c, p, v, slot="0", use=("x",)))
+    def mktree(d, i=0):
+        """repository #i is called r<i>, and its packages know where they come from (pkg.repo is the tree, as for real repositories)"""
+        t = SimpleTree({c: {p: list(vs) for p, vs in ps.items()} for c, ps in d.items()}, repo_id="r%d" % i)
+        t.package_class = lambda c, p, v: FakePkg.for_tree_usage(c, p, v, slot="0", use=("x",), repo=t)
+        return t
+
+    def mkstack(shape, trees):
+        if isinstance(shape, int):
+            return trees[shape]
+        if isinstance(shape, dict):
+            a, b = (mkstack(x, trees) for x in shape["add"])
+            return a + b
+        return multiplex.tree(*[mkstack(x, trees) for x in shape])
+
+    def describe_stack(shape):
+        if isinstance(shape, int):
+            return "r%d" % shape
+        if isinstance(shape, dict):
+            return " + ".join(describe_stack(x) for x in shape["add"])
+        return "multiplex.tree(" + ", ".join(describe_stack(x) for x in shape) + ")"
 
     def uv(c, p):
         return UnversionedCPV(f"{c}/{p}")
@@ -359,7 +431,7 @@ def run(ctx):
 
     pend = []
 
-    def stage(q, repos, mask, tag):
+    def stage(q, repos, mask, tag, stack=None):
         try:
             leaves = [mkleaf(l) for l in q["leaves"]] or [packages.AlwaysTrue]
             r = build(q["tree"], leaves)
@@ -368,6 +440,8 @@ def run(ctx):
             ctx.count("construction_failed")
             return
         case = {"query": q, "repos": repos, "mask": mask, "mode": tag}
+        if stack is not None:
+            case["stack"] = stack
         cn = Canon()
         tree_model = cn.tree(r)
         mask_r = mask_model = None
@@ -378,18 +452,19 @@ def run(ctx):
                 mask_model = cn.tree(mask_r)
             except Exception:
                 mask_r = None
-        trees = [mktree(d) for d in repos]
+        trees = [mktree(d, i) for i, d in enumerate(repos)]
         names = sorted({c for d in repos for c in d} | {p for d in repos for ps in d.values() for p in ps})
         allv = [[t.package_class(c, p, v) for c, ps in d.items() for p, vs in ps.items() for v in vs] for t, d in zip(trees, repos)]
         allu = [[uv(c, p) for c, ps in d.items() for p, vs in ps.items() if vs] for d in repos]
         flat = [pk for l in allv + allu for pk in l]
         try:
             vtab = [[n for n in names if o.match(n)] for o in cn.vobjs]
-            ptab = [[key(pk) for pk in flat if o.match(pk)] for o in cn.pobjs]
+            # per repository: a leaf may look at pkg.repo (the members of a ::repo atom)
+            ptabs = [[[key(pk) for pk in allv[i] + allu[i] if o.match(pk)] for o in cn.pobjs] for i in range(len(repos))]
         except Exception as e:
             ctx.violation(case, f"a leaf's match raised {type(e).__name__}: {e}")
             return
-        ptab = [[list(x) for x in {tuple(k) for k in row}] for row in ptab]
+        ptabs = [[[list(x) for x in {tuple(k) for k in row}] for row in ptab] for ptab in ptabs]
         rec = {"real": {}, "brute": {}, "cand": None}
         for versioned in (True, False):
             univ = allv if versioned else allu
@@ -413,22 +488,32 @@ def run(ctx):
             except Exception as e:
                 rec["cand"] = "raised " + type(e).__name__
         # multiplex (stack of repositories) and filtered, on the real code
-        if len(trees) > 1:
-            m = multiplex.tree(*trees)
+        # a stack is a repository too: stacks of stacks (multiplex.tree(multiplex.tree(a, b), c), stack + stack) answer with the union of the leaves
+        shapes = [list(range(len(trees)))] if len(trees) > 1 else []
+        if stack is not None and stack not in shapes:
+            shapes.append(stack)
+        for shape in shapes:
+            what = describe_stack(shape)
+            try:
+                m = mkstack(shape, trees)
+            except Exception as e:
+                ctx.violation(case, f"building {what} raised {type(e).__name__}: {e}")
+                continue
             for sname, sorter in SORTERS.items():
                 kw = {"sorter": sorter} if sname != "iter" else {}
                 try:
                     res = list(m.itermatch(r, **kw))
                 except Exception as e:
-                    ctx.violation(case, f"multiplex.itermatch(sorter={sname}) raised {type(e).__name__}: {e}")
+                    ctx.violation(case, f"{what}.itermatch(sorter={sname}) raised {type(e).__name__}: {e}")
                     continue
-                want = [k for i in range(len(trees)) for k in rec["brute"][(i, True)]]
-                ctx.count("multiplex_queries")
-                if counted(key(p) for p in res) != counted(want):
-                    ctx.violation(case, f"multiplex over {len(trees)} repositories (sorter={sname}) yields {counted(key(p) for p in res)}, "
-                                        f"the union of the members' brute-force answers is {counted(want)}")
+                want = [k + [i] for i in range(len(trees)) for k in rec["brute"][(i, True)]]
+                got = [key(p) + [int(p.repo.repo_id[1:])] for p in res]
+                ctx.count("multiplex_queries" if shape is not stack else "nested_multiplex_queries")
+                if counted(got) != counted(want):
+                    ctx.violation(case, f"{what} over {len(trees)} repositories (sorter={sname}), query {str(r)!r:.200}, yields (category, package, "
+                                        f"version, repository) {counted(got)}; the union of the repositories' brute-force answers is {counted(want)}")
                 if sname != "iter" and res != sorter(res):
-                    ctx.violation(case, f"multiplex.itermatch(sorter={sname}) is not in sorter order: {[key(p) for p in res]}")
+                    ctx.violation(case, f"{what}.itermatch(sorter={sname}) is not in sorter order: {[key(p) for p in res]}")
         if mask_r is not None:
             for sentinel in (False, True):
                 try:
@@ -445,10 +530,12 @@ def run(ctx):
             for versioned in (True, False):
                 for sname in SORTERS:
                     reqs.append({"cmd": "c08.query", "repo": [[c, [[p, vs] for p, vs in ps.items()]] for c, ps in d.items()],
-                                 "tbl": cn.tbl, "vtab": vtab, "ptab": ptab, "tree": tree_model, "sorter": sname, "versioned": versioned})
+                                 "tbl": cn.tbl, "vtab": vtab, "ptab": ptabs[i], "tree": tree_model, "sorter": sname, "versioned": versioned})
         pend.append((case, rec, reqs, tree_model, cn.tbl))
 
     PKCACHE = {}
+    from pkgcore.test.misc import FakeRepo
+    HREPOS = [FakeRepo(repo_id="r%d" % i) for i in range(NREPO_IDS)]
 
     def build_query(q):
         leaves = [mkleaf(l) for l in q["leaves"]] or [packages.AlwaysTrue]
@@ -465,14 +552,16 @@ def run(ctx):
             ctx.note(f"construction raised {type(e).__name__}: {str(e)[:80]} (case skipped)")
             ctx.count("construction_failed")
             return
-        def pk(c, p, v):
-            k = (c, p, v)
-            if k not in PKCACHE:
-                PKCACHE[k] = FakePkg.for_tree_usage(c, p, v, slot="0", use=("x",))
-            return PKCACHE[k]
+        def pk_of(i):
+            def pk(c, p, v):
+                k = (i, c, p, v)
+                if k not in PKCACHE:
+                    PKCACHE[k] = FakePkg.for_tree_usage(c, p, v, slot="0", use=("x",), repo=HREPOS[i % NREPO_IDS])
+                return PKCACHE[k]
+            return pk
 
         live = [{c: {p: list(vs) for p, vs in ps.items()} for c, ps in d.items()} for d in h["repos"]]
-        trees = [SimpleTree(d, pkg_klass=pk, frozen=False) for d in live]
+        trees = [SimpleTree(d, pkg_klass=pk_of(i), frozen=False, repo_id="r%d" % (i % NREPO_IDS)) for i, d in enumerate(live)]
         mux = multiplex.tree(*trees)
         filt = {s: filtered.tree(trees[0], mask_r, sentinel_val=s) for s in (False, True)} if mask_r is not None else {}
         nviol = [0]
@@ -484,7 +573,7 @@ def run(ctx):
                                                              f"({[{c: dict(ps) for c, ps in d.items()} for d in live]}) gives {counted(want)}")
 
         def batch(step):
-            contents = [[pk(c, p, v) for c, ps in d.items() for p, vs in ps.items() for v in vs] for d in live]
+            contents = [[pk_of(i)(c, p, v) for c, ps in d.items() for p, vs in ps.items() for v in vs] for i, d in enumerate(live)]
             for qi, r in enumerate(qs):
                 per_tree = []
                 for i, (t, d) in enumerate(zip(trees, live)):
@@ -498,8 +587,8 @@ def run(ctx):
                         return
                     ctx.count("history_tree_queries")
                     if counted(got) != counted(want):
-                        bad(step, f"query #{qi} on repository #{i}", got, want)
-                union = [k for _, want in per_tree for k in want]
+                        bad(step, f"query #{qi} ({str(r)!r:.120}) on repository #{i}", got, want)
+                union = [k + [i % NREPO_IDS] for i, (_, want) in enumerate(per_tree) for k in want]
                 for sname in ("iter", "sorted"):
                     kw = {"sorter": sorted} if sname == "sorted" else {}
                     try:
@@ -508,8 +597,10 @@ def run(ctx):
                         ctx.violation(dict(case, failing_step=step), f"after {step}: multiplex.itermatch raised {type(e).__name__}: {e}")
                         return
                     ctx.count("history_multiplex_queries")
-                    if counted(key(x) for x in res) != counted(union):
-                        bad(step, f"query #{qi} on the stack of {len(trees)} repositories (sorter={sname})", [key(x) for x in res], union)
+                    got = [key(x) + [int(x.repo.repo_id[1:])] for x in res]
+                    if counted(got) != counted(union):
+                        bad(step, f"query #{qi} ({str(r)!r:.120}) on the stack of {len(trees)} repositories (sorter={sname}) [(category, package, "
+                                  f"version, repository)]", got, union)
                     if sname == "sorted" and res != sorted(res):
                         ctx.violation(dict(case, failing_step=step), f"after {step}: multiplex.itermatch(sorter=sorted) is not sorted")
                 for sentinel, f in filt.items():
@@ -535,8 +626,9 @@ def run(ctx):
                 elif op["op"] == "stack":
                     d = {c: {p: list(vs) for p, vs in ps.items()} for c, ps in op["contents"].items()}
                     live.append(d)
-                    trees.append(SimpleTree(d, pkg_klass=pk, frozen=False))
-                    mux = mux + trees[-1]
+                    i = len(trees)
+                    trees.append(SimpleTree(d, pkg_klass=pk_of(i), frozen=False, repo_id="r%d" % (i % NREPO_IDS)))
+                    mux = mux + (multiplex.tree(trees[-1]) if op.get("as_stack") else trees[-1])
             except Exception as e:
                 ctx.violation(dict(case, failing_step=step), f"{step} raised {type(e).__name__}: {e}")
                 return
@@ -607,7 +699,7 @@ def run(ctx):
     if ctx.replay_cases:
         for c in ctx.replay_cases:
             if "query" in c and "repos" in c:
-                stage(c["query"], c["repos"], c.get("mask"), "replay")
+                stage(c["query"], c["repos"], c.get("mask"), "replay", c.get("stack"))
     if ctx.replay_cases:
         for c in ctx.replay_cases:
             if "history" in c:
@@ -624,7 +716,9 @@ def run(ctx):
         if not any(repos[0].values()):
             repos[0] = gen_repo(rng)
         mask = gen_query(rng) if rng.random() < 0.3 else None
-        stage(q, repos, mask, "random")
+        if rng.random() < 0.12:
+            q = aimed_atom_query(rng, repos)
+        stage(q, repos, mask, "random", gen_stack(rng, list(range(nrep))) if nrep > 1 or rng.random() < 0.1 else None)
         if i % 8 == 0:
             stage_history(gen_history(rng), "history")
         if len(pend) >= 1500:      # each driver start costs ~1 s: batch
@@ -661,7 +755,8 @@ LEVEL_TEXT = ("Kernel-checked Lean 4 theorems about a model that mirrors prototy
               "(candidates_superset, via C06's unguarded DNF completeness), a query result is a permutation of the brute-force answer — every "
               "match, nothing else, each once — versioned and unversioned, for every lawful sorter (itermatch_exact, unversioned_exact, "
               "sorted_same_multiset), a stack answers with the multiset union (multiplex_union), a filtered repository with the filtered answer "
-              "(filtered_exact); for all repositories, trees, leaves and environments.  Tied to the code by running the real itermatch (3 sorters, "
+              "(filtered_exact), a stack of stacks with the union of its leaves' answers however nested (nested_multiplex_union); for all "
+              "repositories, trees, leaves and environments.  Tied to the code by running the real itermatch (3 sorters, "
               "versioned/unversioned), _identify_candidates, multiplex.tree and filtered.tree on random SimpleTrees against the model and against "
               "brute force.")
 LEVEL_NOTE = ("Trusted: opaque leaves/value restrictions tabulated from the real match; mapping caches, mutation protocol, force/pkg_filter not "
